@@ -11,7 +11,7 @@ class C07(FragHarness, WrapHarness):
     def spaces(self, tier, seed):
         q = tier == 'quick'
         out = []
-        for nlw in (0, 1, 2) + (() if q else (3,)):
+        for nlw in (0, 1, 2, 3) + (() if q else (4,)):
             for n in range(1, (5 if q else 7) + 1):
                 out.append({'level': 'frag', 'algo': 'F', 'num': 'int', 'n': n, 'nlw': nlw, 'B': 1 << 40, 'LB': 1 << 52,
                             'SB': 1 << 20, 'PB': 1 << 20})
@@ -150,7 +150,57 @@ class C07(FragHarness, WrapHarness):
                             'line %d could have held the next word' % k)
 
     def text_oracle_indented(self, I, cfg, inp, lines):
-        return
-
+        """same maximality check when indents are present: slices are located by sequential matching (ASCII
+        separator, LF): each remainder is searched from the end of the previous one over spaces / line feeds only"""
+        S = self.spec
+        text = inp['text'].chars
+        W = inp['W']
+        n = len(text)
+        pos = 0
+        located = []
+        for k, ln in enumerate(lines):
+            ind = (inp['ii'] if k == 0 else inp['si']).chars
+            cs = ln['txt'].chars
+            if len(cs) < len(ind):
+                return
+            rem = cs[len(ind):]
+            if not rem:
+                located.append(None)
+                continue
+            a = pos
+            found = None
+            while a + len(rem) <= n:
+                m = seq_eq(rem, text[a:a + len(rem)])
+                if m is not False and I.branch(m):
+                    found = a
+                    break
+                if not I.branch(v_or(v_eq(text[a][0], 32), v_eq(text[a][0], 10))):
+                    return
+                a += 1
+            if found is None:
+                return
+            located.append((found, found + len(rem)))
+            pos = found + len(rem)
+        for k in range(len(lines) - 1):
+            if located[k] is None or located[k + 1] is None:
+                continue
+            ea = located[k][1]
+            sb = located[k + 1][0]
+            gap = text[ea:sb]
+            if not gap or not I.branch(v_and(*[v_eq(c, 32) for c, _ in gap])):
+                continue
+            wa = S.display_width(I, lines[k]['txt'].chars, sym_not_esc=True)
+            first = text[sb][0]
+            if cfg.get('bw', True):
+                I.check(v_lt(W, v_add(v_add(wa, len(gap)), S.char_width(I, first))), 'line-not-maximal',
+                        'indented line %d could have held the first character of the next line' % k)
+            elif cfg.get('split') == 'N':
+                nxt = []
+                for c in text[sb:]:
+                    if I.branch(v_or(v_eq(c[0], 32), v_eq(c[0], 10))):
+                        break
+                    nxt.append(c)
+                I.check(v_lt(W, v_add(v_add(wa, len(gap)), S.display_width(I, nxt, sym_not_esc=True))),
+                        'line-not-maximal', 'indented line %d could have held the next word' % k)
 
 HARNESS = C07()
